@@ -19,7 +19,9 @@
  *              f      p = r_fetch(&n); if p: check payload; r_move
  *        kill <tid> <k>                      thread <tid> dies (is never scheduled again) after k steps
  *        maxsteps <n>
- *        sched random <seed> | pct <seed> <depth> | replay <tokens...> | prefix <tokens...>
+ *        sched random <seed> | pct <seed> <depth> | replay <tokens...> | prefix <tokens...> | opseq <tids...>
+ *             (opseq: each token runs that thread for one whole operation of its program; then as prefix;
+ *              prints "#opseq-steps <k>": the first k tokens of the schedule line are that part)
  *             (prefix: replay, then continue non-preemptively, print "#enabled <masks>": systematic explorer)
  *        run                                 -> schedule, events, end, outcome lines
  *
@@ -183,6 +185,7 @@ static void worker(void *arg)
 		if (o->kind == 'a') do_alloc(tid, k, o->n, 1);
 		else if (o->kind == 'A') do_alloc(tid, k, o->n, 0);
 		else do_fetch();
+		vs_op_done();
 	}
 }
 
@@ -245,8 +248,8 @@ static void vh_op(int argc, char **argv)
 	if (!strcmp(argv[0], "sched") && argc >= 2) {
 		if (!strcmp(argv[1], "random") && argc == 3) { g_pol = 0; g_seed = vh_ull(argv[2]); }
 		else if (!strcmp(argv[1], "pct") && argc == 4) { g_pol = 1; g_seed = vh_ull(argv[2]); g_depth = atoi(argv[3]); }
-		else if (!strcmp(argv[1], "replay") || !strcmp(argv[1], "prefix")) {
-			g_pol = !strcmp(argv[1], "prefix") ? 3 : 2; g_replay[0] = 0; size_t o = 0;
+		else if (!strcmp(argv[1], "replay") || !strcmp(argv[1], "prefix") || !strcmp(argv[1], "opseq")) {
+			g_pol = !strcmp(argv[1], "prefix") ? 3 : !strcmp(argv[1], "opseq") ? 4 : 2; g_replay[0] = 0; size_t o = 0;
 			for (int i = 2; i < argc; i++) o += snprintf(g_replay + o, sizeof g_replay - o, "%s ", argv[i]); }
 		else { printf("bad-op\n"); return; }
 		printf("ok\n");
@@ -257,6 +260,7 @@ static void vh_op(int argc, char **argv)
 		if (g_pol == 0) vs_policy_random(g_seed);
 		else if (g_pol == 1) vs_policy_pct(g_seed, g_depth);
 		else if (g_pol == 3) { vs_policy_prefix(g_replay); vs_trace_enabled(1); }
+		else if (g_pol == 4) { vs_policy_opseq(g_replay); vs_trace_enabled(1); }
 		else vs_policy_replay(g_replay);
 		vs_set_max_steps(g_maxsteps);
 		if (g_kill_tid >= 0) vs_kill_after(g_kill_tid, g_kill_k);
